@@ -450,6 +450,7 @@ func (b *base) ToBinary(i1 frontend.Variable, n ...int) []frontend.Variable {
 			}
 		}
 	}
+	b.cfg.Emit("tobinary", i1, r)
 	if b.cfg.TrackBounds {
 		for _, x := range r {
 			b.setBound(x, big.NewInt(1))
